@@ -307,3 +307,35 @@ Theorem C04_c_fill_then_expand_as_written :
     forall i j, (rb <= i < re)%Z -> (cb <= j < ce)%Z -> (j = 0%Z -> (i <= cw_ri2 l1 l2 window)%Z) -> (i = 0%Z -> (j <= W - 1)%Z) ->
       aget full' ((i - rb) * (ce - cb) + (j - cb)) = mget (wps_matrix usq s1 s2) (Z.to_nat i) (Z.to_nat j).
 Proof. intros window p m mld psi Hw usq s1 s2 d Hd1 Hd2 H1 H2 Hp1 Hp2. exact (c_fill_then_expand window p m mld psi Hw s1 s2 d Hd1 Hd2 H1 H2 Hp1 Hp2). Qed.
+
+(* "THE RETURNED DISTANCE EQUALS WHAT THE DISTANCE-ONLY ROUTINE RETURNS FOR THE SAME SETTINGS", for the C engine as
+   written: the kernel dtw_distance_ndim (Gen_cdist.v) and the warping-paths kernel called with the struct the
+   regenerated dtw_wps_parts returns (Gen_cparts.v, CWpsFinal.c_warping_paths_sq), given the same window, max_dist,
+   max_step, penalty and psi, return the same value v - the first under its final square root (RSqrt v), the second in the
+   internal representation (keep_int_repr; otherwise its own sqrt pass is applied).  max_length_diff is off: the C
+   warping-paths kernel does not test it (dtw.warping_paths_fast does, before the call). *)
+From DV Require Import CParts Prune.
+From DVGen Require Import Gen_cdist.
+
+Theorem C04_c_wps_value_is_the_distance_kernels_value :
+  forall (window p m md : Z) (psi : (nat * nat) * (nat * nat)), (0 <= window)%Z -> (0 <= p)%Z ->
+  let usq := c_to_u (cs_of window p m 0 psi SqEuclid) in
+  forall (s1 s2 : list point) (d : nat),
+  (forall q, In q s1 -> List.length q = d) -> (forall q, In q s2 -> List.length q = d) ->
+  (1 <= List.length s1)%nat -> (1 <= List.length s2)%nat ->
+  (psi_1b usq <= List.length s1)%nat -> (psi_2b usq <= List.length s2)%nat ->
+  (psi_1b usq < List.length s1 \/ psi_2e usq < List.length s2)%nat ->
+  forall ce ced ced1 ced2 cub junk (wps0 : list cost),
+  let l1 := Z.of_nat (List.length s1) in let l2 := Z.of_nat (List.length s2) in
+  Z.of_nat (List.length wps0) = ((l1 + 1) * cw_width l1 l2 window)%Z ->
+  exists v wps',
+    c_dtw_distance_ndim ce ced cub junk (List.concat s1) l1 (List.concat s2) l2 (Z.of_nat d) 0 (Fin md) 0 (Fin m) false (Fin p)
+      (Z.of_nat (psi_1b usq)) (Z.of_nat (psi_1e usq)) (Z.of_nat (psi_2b usq)) (Z.of_nat (psi_2e usq)) false window
+    = (CLang.RSqrt v, true) /\
+    c_warping_paths_sq ce ced1 ced2 wps0 (List.concat s1) l1 (List.concat s2) l2 true true false (Z.of_nat d) window md m p false
+      (Z.of_nat (psi_1b usq)) (Z.of_nat (psi_1e usq)) (Z.of_nat (psi_2b usq)) (Z.of_nat (psi_2e usq)) false
+    = (CLang.RPlain v, wps', true).
+Proof.
+  intros window p m md psi Hw Hp usq s1 s2 d Hd1 Hd2 H1 H2 Hp1 Hp2 Hpsi.
+  exact (c_wps_value_is_the_distance_kernels_value window p m 0 md psi Hw Hp s1 s2 d Hd1 Hd2 H1 H2 Hp1 Hp2 Hpsi eq_refl).
+Qed.
